@@ -202,6 +202,40 @@ def decorate(rnd, rows, info):
     return out, index_map
 
 
+def random_length_text(rnd):
+    """a length declaration of any shape: well-formed ones mostly (single, ranges, open ends, lists, other
+    spellings of the numbers), some malformed; whether a CID may carry it is for the model to say"""
+    def num():
+        v = rnd.choice([0, 1, 1, 2, 3, 3, 5, 8, 10, 12])
+        if rnd.random() < 0.08:
+            v = -v
+        return rnd.choice(["%d", "%d", "%d", "%d", "0x%x"])  % v if v >= 0 else "%d" % v
+
+    def item():
+        k = rnd.random()
+        if k < 0.4:
+            return num()
+        if k < 0.65:
+            return "%s...%s" % (num(), num())
+        if k < 0.8:
+            return "%s..." % num()
+        if k < 0.92:
+            return "...%s" % num()
+        return rnd.choice(["", "x", "1..2", "...", "1 2"])
+    sep = rnd.choice([", ", ",", " , "])
+    return sep.join(item() for _ in range(rnd.choice([1, 1, 1, 2, 2, 3])))
+
+
+def length_variants(rnd, rows, info, count=4):
+    """yield (new_rows, row index): a field row with another length declaration (example removed)"""
+    for _ in range(count):
+        i = rnd.choice(info["field_rows"])
+        r = [list(x) for x in rows]
+        r[i][2] = ""
+        r[i][4] = random_length_text(rnd)
+        yield r, i
+
+
 # ----------------------------------------------------------------------------- structural defects
 def defects(rnd, rows, info):
     """yield (name, new_rows, offending_row_index or None)"""
@@ -266,6 +300,12 @@ def defects(rnd, rows, info):
             yield "fixed-without-length", with_row(i, mod(4, "")), i
             yield "fixed-length-range", with_row(i, mod(4, "1...5")), i
             yield "fixed-length-zero", with_row(i, mod(4, "0")), i
+            a, b = rnd.randint(1, 9), rnd.randint(1, 9)
+            if a == b:
+                b += 1
+            yield "fixed-length-list", with_row(i, mod(4, "%d, %d" % (a, b))), i
+            yield "fixed-length-list-open", with_row(i, mod(4, "%d, %d..." % (min(a, b), max(a, b)))), i
+            yield "fixed-length-list-range-first", with_row(i, mod(4, "%d...%d, %d" % (min(a, b), max(a, b), max(a, b) + 2))), i
         ty = base[5] or "Text"
         if ty == "Integer":
             yield "malformed-rule", with_row(i, mod(6, "1...x")), i
